@@ -166,7 +166,6 @@ struct World {
     if (ch == 1 && g_vnow < due[i]) monitor("set_value EARLY", i);
     if (ch == 2 && !stopRequested[i]) monitor("set_done without stop request", i);
     if (ch == 1 && stopRequested[i]) monitor("set_value although stop was requested before", i);
-    if (ch == 2 && g_vnow >= due[i] && false) {}
     char b[64]; std::snprintf(b, sizeof b, "%d%c@%lld", i, ch == 1 ? 'v' : ch == 2 ? 'd' : 'e', (long long)((g_vnow - base) / UNIT));
     if (!out.empty()) out += " "; out += b;
     // the receiver owns the operation state: destroy + poison
@@ -198,7 +197,7 @@ int run() {
       else if (o[0] == "d") w->drain();
     }
     int done = 0; for (int i = 0; i < MAXN; ++i) { done += w->completions[i]; }
-    if (done != started) { char b[64]; std::snprintf(b, sizeof b, "MONITOR %d started, %d completions", started, done); if (!w->out.empty()) w->out += " ; "; w->out += b; }
+    if (done != started) { char b[160]; std::snprintf(b, sizeof b, "MONITOR lost or duplicated completion: %d started, %d completions", started, done); if (!w->out.empty()) w->out += " ; "; w->out += b; }
     std::printf("%s\n", w->out.c_str());
     std::fflush(stdout);
   }
